@@ -227,7 +227,9 @@ def register_found_overrides(repo):
     added = []
     for key, cs in sorted(REG.contracts.items()):
         for c in list(cs):
-            if not c.covers_overrides:
+            if not c.covers_overrides or c.assumed:
+                # (an ASSUMED base contract defines a ghost function by fiat -- "the value this part yields" -- and is
+                #  trusted for every override; only verified base contracts are obligations on the overrides)
                 continue
             mod, qual = key.split(':')
             parts = qual.split('.')
